@@ -41,6 +41,13 @@ CLAIMED = {
  "C18": ("exploration", "Engine R", "owned randomness for the dynamics: every infection/recovery coin and every walk step goes through a seeded facade, with adversarial and pinned draws (0.0 / just below 1); discrete time stepped by the code itself; exact synchronous reference in the determined regimes",
          "Partly claimed.  simplicial_contagion: fractions in [0,1], first value = initial fraction, non-decreasing for mu = 0, non-increasing for beta = beta_D = 0 under fair, adversarial and pinned draws; exact trajectories against an independent synchronous reference in the eight 0/1 regimes and, with pinned draws, for arbitrary rates; initial condition untouched.  random_walk: consecutive nodes share a hyperedge also for adversarial choice outcomes; random_walk_density: each density is the previous one times the transition matrix and sums to one.",
          "Row-stochasticity, (size-1) weighting and stationarity are pure algebra: checked only as the walk's oracle on the sampled inputs (connected, labelled 0..N-1, N <= 8)."),
+
+ "C15": ("exploration", "Engine R", "owned randomness for the EM initialisation (Generator proxy with extreme-but-legal draws); n_iter as schedule: every prefix 1..K of one EM execution by prefix replay; exact brute-force Poisson likelihood as ascent oracle",
+         "Partly claimed.  fit(): supplied u / w bit-identical afterwards (and the arrays passed in unmodified), parameters finite and non-negative, w symmetric (diagonal when assortative), max size inferred from the data when not given, and - memberships supplied, w_prior = 0 - the exact Poisson log-likelihood (sum over all C(N,2..D) hyperedges, N <= 7) non-decreasing along n_iter = 1..K.",
+         "poisson_params, log_kappa, expected_degree, dimension_sequence and C are pure algebra: compared with brute-force sums only on the parameter states the trajectories visit; ascent not asserted for positive priors (MAP-EM ascends the posterior)."),
+ "C16": ("exploration", "Engine R", "owned randomness for the MCMC sampler (Generator proxy: pair choice, reshuffle choice, accept/reject coin with forced accept / reject stretches); every yielded sample checked; same-seed runs with the global entropy perturbed",
+         "Three modes (initial hypergraph with any labels, total-matching degree+size sequences - realisable or not -, model alone); burn-in 0..5, thinning 0..3 (thinning 1 turns every chain step into a yielded sample); each yielded hypergraph: weighted, positive integer weights, no repeated hyperedge, sizes >= 2 (<= max size from the model), nodes of the model / initial hypergraph; size counts never exceeded, degrees never exceeded when an initial hypergraph is given or matching_sequences is True, exact equality when nothing coincided; two samplers with the same parameters and seed yield identical samples (or raise identically) although unseeded entropy differs.",
+         "A call that raises produces no sample (counted, not a violation); N <= 8, K <= 3."),
 }
 NA = {
  "C08": "pure function of the hypergraph value (degrees, components): no history, I/O, random draw, clock or interleaving for a simulator to own (DESIGN.md 8)",
